@@ -19,6 +19,7 @@ import (
 	"github.com/piotrnar/gocoin/lib/utxo"
 
 	"verif/harness/ledger"
+	"verif/sim/simrt"
 )
 
 type NodeOpts struct {
@@ -297,9 +298,11 @@ func (n *Node) Dump() map[ledger.OutPoint]ledger.Coin {
 func (n *Node) Close() {
 	n.Ch.Close()
 	if n.Alloc != nil {
-		for _, b := range n.ballast {
-			n.Alloc.Free(b)
-		}
+		simrt.Quiet(func() {
+			for _, b := range n.ballast {
+				n.Alloc.Free(b)
+			}
+		})
 		n.ballast = nil
 	}
 }
